@@ -34,6 +34,7 @@ type memConn struct {
 	log         []connEvent
 	reads       int
 	name        string
+	addrCalls   int   // RemoteAddr calls: serve() logs the peer when it starts
 	gate        *gate // optional: first RemoteAddr/Read waits for it (forced schedules, C11)
 	gated       bool
 }
@@ -55,6 +56,9 @@ func (c *memConn) logf(kind string, data []byte, text string) {
 }
 
 func (c *memConn) event(kind, text string) {
+	if c == nil {
+		return
+	}
 	c.mu.Lock()
 	c.logf(kind, nil, text)
 	c.mu.Unlock()
@@ -164,6 +168,10 @@ func (c *memConn) Close() error {
 func (c *memConn) LocalAddr() net.Addr { return memAddr("server") }
 func (c *memConn) RemoteAddr() net.Addr {
 	c.passGate()
+	c.mu.Lock()
+	c.addrCalls++
+	c.cond.Broadcast()
+	c.mu.Unlock()
 	return memAddr(c.name)
 }
 
@@ -257,6 +265,9 @@ type memListener struct {
 	// optional gates for forced schedules
 	acceptReturnGate *gate // Accept has dequeued a connection, waits before returning it
 	closeGate        *gate // Close waits before taking effect
+	holdAccepts      bool  // every dequeued connection waits at its own gate (appended to held)
+	held             []*gate
+	inAccept         int // Accept calls currently blocked in the select
 }
 
 func newMemListener() *memListener {
@@ -274,14 +285,29 @@ var errPermanent = fmt.Errorf("permanent accept error")
 func (l *memListener) Accept() (net.Conn, error) {
 	l.mu.Lock()
 	l.accepts++
+	l.inAccept++
 	l.mu.Unlock()
 	select {
 	case r := <-l.ch:
+		l.mu.Lock()
+		l.inAccept--
+		var g *gate
+		if r.conn != nil && l.holdAccepts {
+			g = newGate("accept-return")
+			l.held = append(l.held, g)
+		}
+		l.mu.Unlock()
+		if g != nil {
+			g.arrive()
+		}
 		if r.conn != nil && l.acceptReturnGate != nil {
 			l.acceptReturnGate.arrive()
 		}
 		return r.conn, r.err
 	case <-l.closed:
+		l.mu.Lock()
+		l.inAccept--
+		l.mu.Unlock()
 		return nil, net.ErrClosed
 	}
 }
